@@ -83,7 +83,7 @@ def ident(x):
 def _pick(opts):
     """The task object to call for a `task` node, by options."""
     t = {"node": node, "pnode": pnode, "anode": anode, "dnode": dnode, "cnode": cnode, "onode": onode,
-         "xnode": xnode}[opts.get("t", "node")]
+         "xnode": xnode, "gnode": gnode}[opts.get("t", "node")]
     o = {}
     for k in ("executor", "limits", "cache", "cache_scope", "check_valid", "nout", "prov", "tags", "mode"):
         if k in opts:
@@ -95,6 +95,15 @@ def _pick(opts):
     if "ctx" in opts:
         t = t.update_context(opts["ctx"])
     return t
+
+
+def _partial(body, binds):
+    """The partial task for a map / catch / callv body. With bound variables the partial binds its
+    arguments BY KEYWORD (kelem.partial(ast=.., env=..)), without any positionally (elem.partial(body,
+    {})): both ways of building a partial task are part of the grammar."""
+    if binds:
+        return kelem.partial(ast=body, env=binds)
+    return elem.partial(body, {})
 
 
 def _lazy(x):
@@ -163,7 +172,7 @@ def comp(ast, env):
         classes = tuple(ERR[c] for c in kinds)
         if len(classes) == 1:
             classes = classes[0]
-        recover = elem.partial(body, {n: comp(b, env) for n, b in binds.items()})
+        recover = _partial(body, {n: comp(b, env) for n, b in binds.items()})
         return catch(comp(expr, env), classes, recover)
     if k == "catch_all":
         items, kinds, body = ast[1], ast[2], ast[3]
@@ -173,7 +182,7 @@ def comp(ast, env):
         return catch_all(exprs, tuple(ERR[c] for c in kinds), elem.partial(body, {}))
     if k == "map":
         body, binds, xs = ast[1], ast[2], ast[3]
-        return map_(elem.partial(body, {n: comp(b, env) for n, b in binds.items()}), comp(xs, env))
+        return map_(_partial(body, {n: comp(b, env) for n, b in binds.items()}), comp(xs, env))
     if k == "map2":   # map_(g, map_(f, xs)): exercises the fusion of nested maps
         g, f, xs = ast[1], ast[2], ast[3]
         return map_(elem.partial(g, {}), map_(elem.partial(f, {}), comp(xs, env)))
@@ -194,7 +203,7 @@ def comp(ast, env):
         f = _lazy(comp(ast[1], env))
         return f(*[comp(a, env) for a in ast[2]])
     if k == "mkpartial":   # a partial task as a value
-        return elem.partial(ast[1], {n: comp(b, env) for n, b in ast[2].items()})
+        return _partial(ast[1], {n: comp(b, env) for n, b in ast[2].items()})
     if k == "mkfile":
         return mkfile(ast[1], ast[2])
     if k == "subrun":
@@ -307,6 +316,28 @@ def cnode(ast, env, c=_gc("a", "none"), c2=_gc("b.x", 0)):
     env2 = dict(env)
     env2["c"] = c
     env2["c2"] = c2
+    return comp(ast, env2)
+
+
+G_BODY = ["list", [["getctx", "a", 0], ["getctx", "b.x", "d"]]]
+
+
+@task(name="gnode")
+def gnode(ast, env, g=node(G_BODY, {})):
+    """Task whose default argument is a TASK CALL that reads the context (available as var g): that
+    call runs as a job of its own, under the context of the gnode call it belongs to."""
+    _log("gnode", ast)
+    env2 = dict(env)
+    env2["g"] = g
+    return comp(ast, env2)
+
+
+@task(name="kelem")
+def kelem(x, ast=None, env=None):
+    """elem with the element first, so that a partial can bind ast and env by keyword."""
+    _log("kelem", ast)
+    env2 = dict(env)
+    env2["x"] = x
     return comp(ast, env2)
 
 
